@@ -24,6 +24,7 @@
 #include <malloc.h>
 
 extern "C" void __real_free(void*);
+extern "C" int sim_race_domain(int task) __attribute__((weak));
 
 namespace
 {
@@ -68,6 +69,9 @@ namespace
     return "?";
   }
 
+  // different simulated processes (SimMPI ranks) share memory only because they live in one address space here
+  inline bool same_process(int a, int b) { return !sim_race_domain || sim_race_domain(a) == sim_race_domain(b); }
+
   [[noreturn]] void report(const char* what_now, const void* pc_now, const Acc& old, const char* what_old, uintptr_t addr, int me)
   {
     t_inside = true;
@@ -92,10 +96,10 @@ namespace
       const sim::VClock& vc = sim::vclock();
       const int me = sim::self();
       const uint32_t now = vc[size_t(me)];
-      if(c->w.task >= 0 && c->w.task != me && !ordered(c->w, vc)) report(is_write ? "write" : "read", pc, c->w, "write", addr, me);
+      if(c->w.task >= 0 && c->w.task != me && !ordered(c->w, vc) && same_process(c->w.task, me)) report(is_write ? "write" : "read", pc, c->w, "write", addr, me);
       if(is_write)
       {
-        for(Acc& r : c->r) if(r.task >= 0 && r.task != me && !ordered(r, vc)) report("write", pc, r, "read", addr, me);
+        for(Acc& r : c->r) if(r.task >= 0 && r.task != me && !ordered(r, vc) && same_process(r.task, me)) report("write", pc, r, "read", addr, me);
         c->w.task = int16_t(me); c->w.clk = now; c->w.size = uint8_t(size); c->w.pc = pc;
         for(Acc& r : c->r) r.task = -1;   // all earlier reads are ordered before this write
       }
